@@ -3,6 +3,7 @@ import Rsbdd.Driver.FormulaCases
 import Rsbdd.Driver.ParseCases
 import Rsbdd.Driver.CliCases
 import Rsbdd.Driver.EnvCases
+import Rsbdd.Driver.DotCases
 import Std.Data.HashSet
 
 namespace Rsbdd
@@ -18,6 +19,7 @@ def dispatch (fields : List String) : Verdict :=
   | "C10" :: rest => handleC10 rest
   | "C11" :: rest => handleC11 rest
   | "C13" :: rest => handleC13 rest
+  | "C14" :: rest => handleC14 rest
   | "C02" :: rest => handleC02 rest
   | "C03" :: rest => handleC03 rest
   | "C04" :: rest => handleC04 rest
